@@ -15,20 +15,23 @@ import (
 )
 
 func main() {
-	stream := flag.String("stream", "c20", "c20 (smtp mailer) | c20-log (log mailer)")
+	stream := flag.String("stream", "c20", "c20 (smtp mailer) | c20-log (log mailer) | c20-json (log mailer, API mode)")
 	n := flag.Int("n", 8, "concurrent clients")
 	seed := flag.Int64("seed", 1, "unused (schedules are the Go runtime's)")
 	outDir := flag.String("out", ".", "output directory")
 	rounds := flag.Int("rounds", 2, "script rounds per client")
 	flag.Parse()
-	mailer := "smtp"
+	mailer, jsonMode := "smtp", false
 	if *stream == "c20-log" {
 		mailer = "log"
 	}
+	if *stream == "c20-json" {
+		mailer, jsonMode = "log", true
+	}
 	out := wire.NewOut(*stream, *seed)
-	out.Meta.Rule = fmt.Sprintf("%d clients x %d rounds of a 30-request script (register, confirm by mailed link, login/remember, protected routes, OTP add/login/reuse, recover by mailed link, TOTP enrol + second-factor login, recovery codes, OAuth2 round trip, logout) on accounts of their own, all at once against one instance built from the shipped defaults (%s mailer, mail goroutines on), under the race detector; then every script alone on a fresh instance; transcripts (status, headers, jar events, body; random values replaced by placeholders) compared per client; non-trivial = every request; distinct by (client, request)", *n, *rounds, mailer)
+	out.Meta.Rule = fmt.Sprintf("%d clients x %d rounds of a 35-request script (redirect-mode protected page while logged out, register, confirm by mailed link, login/remember, protected routes, OTP add/login/reuse, recover by mailed link, TOTP enrol + second-factor login, SMS enrol + second-factor login, OAuth2 round trip, logout) on accounts of their own, all at once against one instance built from the shipped defaults (%s mailer, mail goroutines on, json=%v), under the race detector; then every script alone on a fresh instance; transcripts (status, headers, jar events, body; random values replaced by placeholders) compared per client; non-trivial = every request; distinct by (client, request)", *n, *rounds, mailer, jsonMode)
 
-	in, err := conc.New(mailer)
+	in, err := conc.New(mailer, jsonMode)
 	if err != nil {
 		fmt.Fprintln(os.Stderr, err)
 		os.Exit(2)
@@ -55,7 +58,7 @@ func main() {
 		wg2.Add(1)
 		go func(i int) {
 			defer wg2.Done()
-			solo, err := conc.New(mailer) // a fresh instance of its own: "had the others not been running"
+			solo, err := conc.New(mailer, jsonMode) // a fresh instance of its own: "had the others not been running"
 			if err != nil {
 				fmt.Fprintln(os.Stderr, err)
 				os.Exit(2)
